@@ -111,9 +111,14 @@ package common
 //@   hint return [entries-sorted] err == nil ==> (forall k, j int :: {nodes[k].Extra[j]} 0 <= k && k < len(nodes) && 0 <= j && j < custodianNodeExtraSize ==>
 //@       nodesExtra[custodianNodeExtraSize * k + j] == nodes[k].Extra[j])
 //@   hint at "sortedExtra = append(sortedExtra, n.Extra...)" [chunk-shape] n != nil && len(n.Extra) == custodianNodeExtraSize
+//@   -- the chunk just appended, stated at the index form the append model produces (old length + j): proved by one instantiation; the
+//@   -- [content] invariant for k == rangeindex then only needs len(sortedExtra) == 353 * rangeindex (a ground fact) to re-index it
+//@   hint after append [chunk-appended] len(callresult) == len(sortedExtra) + custodianNodeExtraSize &&
+//@       (forall j int :: {n.Extra[j]} 0 <= j && j < custodianNodeExtraSize ==> callresult[len(sortedExtra) + j] == n.Extra[j])
 //@   loop 1 invariant [length] len(sortedExtra) == custodianNodeExtraSize * (rangeindex + 1)
 //@   -- [content]: sortedExtra is the concatenation of the Extra of nodes[0..rangeindex]. Written as two conjuncts (the chunk appended last /
-//@   -- the earlier chunks) so that the two cases of its preservation proof become two separate obligations.
+//@   -- the earlier chunks) so that the two cases of its preservation proof become two separate obligations; the last chunk follows from
+//@   -- the `hint after append` above by re-indexing with the ground fact len(sortedExtra) == 353 * rangeindex.
 //@   loop 1 invariant [content] forall k, j int :: {nodes[k].Extra[j]} 0 <= k && k <= rangeindex && 0 <= j && j < custodianNodeExtraSize ==>
 //@       (k == rangeindex ==> sortedExtra[custodianNodeExtraSize * k + j] == nodes[k].Extra[j]) &&
 //@       (k != rangeindex ==> sortedExtra[custodianNodeExtraSize * k + j] == nodes[k].Extra[j])
